@@ -511,6 +511,7 @@ pub fn c11(ctx: &Ctx) -> Report {
     rep.rule.push("(a) E2 over f32 bit patterns p for set_phase(p) (thorough: all 2^32; quick: every 16th pattern plus neighbourhoods of powers of two); (b) E2 over a frequency x sample-rate grid, one tick each; (c) E1 bounded-depth exploration of tick/set_frequency/set_phase/reset histories; non-trivial = finite patterns + grid points with a non-zero advance + explored transitions".into());
     // (a)
     set_phase_sweep(ctx, &mut rep, if ctx.tier.is_thorough() { 1 } else { 16 }, &["C11"]);
+    rep.mark("set_phase sweep");
     // reset
     {
         let mut l = lfo_at(12345);
@@ -627,14 +628,17 @@ pub fn c11(ctx: &Ctx) -> Report {
     });
     rep.evaluations += rates.len() as u64 * (nf + 65) * 5;
     rep.subruns.push(json!({"engine": "E2-sweep", "what": "frequency x sample-rate grid, one tick from 5 start phases", "rates": rates, "frequencies_per_rate": nf + 65}));
+    rep.mark("frequency grid");
     // (c)
-    for (fs, d) in [(1000.0f32, if ctx.tier.is_thorough() { 6 } else { 5 }), (192000.0, if ctx.tier.is_thorough() { 5 } else { 4 })] {
+    for (fs, d) in [(1000.0f32, if ctx.tier.is_thorough() { 9 } else { 6 }), (192000.0, if ctx.tier.is_thorough() { 8 } else { 5 })] {
         let m = LfoM::new(fs, vec![0.0, 1.0, fs / 16777216.0, fs / 4.0, fs * 0.999, fs, fs / 16777216.0 * 1000.7, fs / 16777216.0 * 1001.2], vec![0.0, 0.25, 0.999_999_9, 0.999_999_94, -0.3, 7.5, -1.0e10]);
         explore(m, &ExploreCfg { max_depth: Some(d), state_cap: 50_000_000, threads: ctx.threads, label: format!("lfo histories fs={} depth {}", fs, d) }, &mut rep, &["C11"]);
     }
+    rep.mark("history exploration");
     if ctx.tier.is_thorough() {
         key_selfcheck(LfoM::new(1000.0, vec![0.0, 1.0, 250.0], vec![0.0, 0.25, -0.3]), 200_000, &mut rep, "lfo history machine");
     }
+    rep.mark("key self-check");
     rep.nontrivial = rep.counters.get("finite_patterns").copied().unwrap_or(0) + rep.counters.get("grid_ticks_nonzero_advance").copied().unwrap_or(0) + rep.counters.get("ticks").copied().unwrap_or(0);
     rep.require_nonzero("finite_patterns");
     rep.require_nonzero("negative_patterns");
